@@ -30,9 +30,18 @@ def run(c):
               "a package-level function named like an earlier group's helper, helpers called several times with other arguments, blank parameters in "
               "every position (one field per parameter or grouped), helper bodies that name package-level / group-level / shadowing group-level "
               "constants in every string and int argument position; higher-order helpers (a parameter of function type called in the body, spelled like nothing else / like a helper of the group / like "
-              "the higher-order helper itself; the argument is another helper, defined before or after); a fixed catalogue of 58 shapes with "
-              "hand-written twins (incl. files of 2-3 groups that spell their Where() alike over equal-named constants / helpers that mean "
-              "something else in each group); const cases: one spelled argument vs its plain literal, and files of 2-3 groups with ONE Where() text "
+              "the higher-order helper itself; the argument is another helper, defined before or after; one file in eight also has a helper that hands pa / pb on to the "
+              "higher-order helper at a place where the name still means the package-level function variable -- the helper of the group is "
+              "defined later --, or already means the helper); a fixed catalogue of 83 shapes with "
+              "hand-written twins (incl. package-level functions / function variables handed to higher-order helpers as ARGUMENTS inside a helper, in "
+              "Where(), through two higher-order helpers, as second argument, through a parameter of their own name, with the equal-named helper "
+              "of the group defined later / before / in between / in the previous group; and files of 2-3 groups that spell their Where() alike over equal-named constants / helpers that mean "
+              "something else in each group); const cases: a fixed catalogue -- every class of outermost node of a constant expression (literal, name, parenthesis, unary, binary, "
+              "CALL: conversions, len; SELECTOR: a constant of an imported package) in every position that reads a constant (13 filter arguments "
+              "and comparison operands read by the constant-first step of convertFilterExprImpl; 14 read by toStringValue / parseStringArg: variable "
+              "names, Contains, File() predicates, GoVersion, Match / MatchComment patterns, Report, Suggest, At, Import; 6 int positions): call- and "
+              "selector-rooted spellings in every position in every run, a third of the other pairs rotating with the seed --, then "
+              "one randomly spelled argument vs its plain literal, and files of 2-3 groups with ONE Where() text "
               "over the constant names kT / kN / kV / kP to which every group gives its own values (declared in the group or left to the package "
               "level; also as arguments of an equal-named helper) vs the same file with literals; distinct "
               "by source text; non-trivial when (a) loads (equality is really compared) or the spelling is not a plain literal")
@@ -41,6 +50,8 @@ def run(c):
         "scan of the reads of a Src field in ruleguard/*.go and ruleguard/ir/*.go)",
         "the printer of the type-checked rules file as a model term (harness/cmd/c18/model.go: types.Info.Types values as annotations) and the generator's own inliner",
         "harness/cmd/c18, hook ruleguard.VerifConvertAST",
+        "model.go prints an identifier that go/types binds to a package-level function / variable, a builtin or a type under a name no helper "
+        "can have (pkg.<name>): the model's lookup by name then is Go's scoping as go/types resolved it",
     ]
     c.notes += ["the conversion model is the control skeleton of convertFilterExprImpl (constant first, then structure, matcher paths by table, "
                 "helper lookup / argument check / expansion with the per-group table); loader-level errors are covered by the twin oracle only",
